@@ -26,7 +26,8 @@ META = {
 META["claim"] += " " + 'Also: two or three connections of one process, each in the middle of its own fragmented message, served alternately (reassembly state is per connection).'
 META["claim"] += " " + "Round 3b: after send_close() the server's remaining messages (incl. empty ones cut into empty fragments, with pings in between) drained through recv / next / for / recv_data until its close frame; a WebSocketApp reassembly case."
 
-TEXTS = ["", "a", "é", "€", "\U0001f600", "ab€"[:2] + "c", "aé"]
+TEXTS = ["", "a", "é", "€", "\U0001f600", "ab€"[:2] + "c", "aé", "\ufeff", "\ufeffa"]
+MORE_TEXTS = TEXTS + H.TRICKY_TEXTS
 BINS = [b"", b"\x00", b"\xff\xfe", b"\x80\x81\x82", b"\xc3\x28\xa0\xa1"]
 GAPS = {"none": b"", "ping": None, "pongping": None}
 CALLS = [("recv", False), ("recv_data", False), ("recv_data_frame", False), ("recv_data_frame", True), ("next", False), ("iter", False)]
@@ -111,7 +112,7 @@ def run(res, tier, seed, shard, nshards):
                 frag = False
                 for _ in range(nm):
                     is_text = rng.random() < 0.5
-                    payload = rng.choice([t.encode() for t in TEXTS]) if is_text else rng.choice(BINS)
+                    payload = rng.choice([t.encode() for t in MORE_TEXTS]) if is_text else rng.choice(BINS)
                     k = rng.randrange(1, 5)
                     comp = rng.choice(list(compositions(len(payload), k)))
                     gaps = tuple(rng.choice(["none", "none", "ping", "pongping"]) for _ in range(k + 1))
